@@ -2,6 +2,7 @@ package rules
 
 import (
 	"fmt"
+	"go/token"
 	"go/types"
 	"strings"
 
@@ -261,8 +262,13 @@ func runQuotaGuard(c *core.Ctx) {
 		// the verdict: the helper's only result, or — of several, `(ok, changed, active)` — the first bool
 		// one that the host branches on
 		vi := -1
+		errVerdict := false
 		if host != nil {
 			res := req.Signature.Results()
+			// … or an error, nil meaning "admitted" (`if err := v.reserve(id, N); err != nil { reject }`)
+			if res.Len() == 1 && types.Identical(res.At(0).Type(), types.Universe.Lookup("error").Type()) {
+				vi, errVerdict = 0, true
+			}
 			for i := 0; i < res.Len() && vi < 0; i++ {
 				if bt, isB := res.At(i).Type().Underlying().(*types.Basic); !isB || bt.Kind() != types.Bool {
 					continue
@@ -296,17 +302,26 @@ func runQuotaGuard(c *core.Ctx) {
 		unread := false
 		for _, rb := range an.ReturnBlocks(req) {
 			r := an.LastInstr(rb).(*ssa.Return)
+			isV := func(rv ssa.Value, b bool) bool {
+				if !errVerdict {
+					return isConstBool(rv, b)
+				}
+				if b {
+					return an.IsNilConst(rv)
+				}
+				return definitelyError(rv)
+			}
 			switch rv := an.ReturnValues(r)[vi]; {
-			case isConstBool(rv, false) && helperRej == nil:
+			case isV(rv, false) && helperRej == nil:
 				helperRej = r
-			case isConstBool(rv, true) && (helperFwd == nil || mu.Block() == rb || mu.Block().Dominates(rb)):
+			case isV(rv, true) && (helperFwd == nil || mu.Block() == rb || mu.Block().Dominates(rb)):
 				// (of several accepting ways out — "already open" and "room left" — the one that enters the id
 				// is the forwarding return the set logic is read at; the others must have found the id present)
 				if helperFwd != nil {
 					helperFwdMore = append(helperFwdMore, helperFwd)
 				}
 				helperFwd = r
-			case isConstBool(rv, true):
+			case isV(rv, true):
 				helperFwdMore = append(helperFwdMore, r)
 			default:
 				unread = true
@@ -336,6 +351,26 @@ func runQuotaGuard(c *core.Ctx) {
 				if ex, isEx := g.V.(*ssa.Extract); isEx && ex.Tuple == ssa.Value(site) && ex.Index == vi {
 					verdict, guarded = g.True, true
 				}
+				if bo, isBO := g.V.(*ssa.BinOp); errVerdict && isBO && (bo.Op == token.EQL || bo.Op == token.NEQ) && an.IsNilConst(bo.Y) && bo.X == ssa.Value(site) {
+					verdict, guarded = (bo.Op == token.EQL) == g.True, true
+				}
+				// `if errors.Is(err, errFull) { reject }`: the refusal, when errFull is all the helper fails with
+				if ic, isC := g.V.(*ssa.Call); errVerdict && isC && an.CalleeName(&ic.Call) == "errors.Is" && len(ic.Call.Args) == 2 && ic.Call.Args[0] == ssa.Value(site) {
+					if sg := sentinelOf(P, ic.Call.Args[1]); sg != nil {
+						at := newErrAtoms()
+						collectErr(P, site, at, false, 0, map[ssa.Value]bool{})
+						only := !at.unknown && len(at.bare)+len(at.wrapped) > 0
+						for x := range at.bare {
+							only = only && x == sg
+						}
+						for x := range at.wrapped {
+							only = only && x == sg
+						}
+						if only {
+							verdict, guarded = !g.True, true
+						}
+					}
+				}
 			}
 			switch r.kind {
 			case "reject":
@@ -344,6 +379,8 @@ func runQuotaGuard(c *core.Ctx) {
 			case "forward":
 				nFwd++
 				okHost = okHost && guarded && verdict
+			case "nostate":
+				// (the per-connection state is missing from the context: the session ends — not a quota decision)
 			default:
 				okHost = false
 			}
@@ -871,4 +908,22 @@ func runUniqPath(c *core.Ctx) {
 			fmt.Sprintf("%s side: Get(%s) found ⇒ %s; not found ⇒ Add(same id) then forward", side, id, map[string]string{"recv": "OK false with the duplicate: prefix", "send": "dropped"}[side]),
 			fmt.Sprintf("unique-filter shape broken (returns ok: %v, Add only on the not-found edge before forwarding: %v, duplicate-marked rejection: %v): a repeated id is forwarded again, or a fresh id is rejected", okShape, addOK, dup))
 	}
+}
+
+// definitelyError: v is an error value that cannot be nil — made here by fmt.Errorf / errors.New,
+// a concrete error boxed here, or one of the package's error variables.
+func definitelyError(v ssa.Value) bool {
+	switch x := v.(type) {
+	case *ssa.Call:
+		n := an.CalleeName(&x.Call)
+		return n == "fmt.Errorf" || n == "errors.New"
+	case *ssa.MakeInterface:
+		return true
+	case *ssa.UnOp:
+		if x.Op == token.MUL {
+			_, isG := x.X.(*ssa.Global)
+			return isG
+		}
+	}
+	return false
 }
